@@ -145,7 +145,13 @@ def run(ctx):
     for b in base[:2]:
         if b.get("tail"):
             res.add_sample({"history_tail": b["tail"], "then": "each ending at each sampled position"})
-    res.rule = ("(enumeration) seeded histories of registrations, joins, rank/mode changes, OPER, invitations, away are "
+    # (3) a session whose task is stuck behind its unread output, ended by KILL / close / reset, and the nickname's
+    # next owner
+    common.run_stuck(ctx, res)
+    res.rule = ("(stuck sessions) a client owed ~10 MB of replies stops reading, is KILLed / closes / resets; the nickname "
+                "is claimed meanwhile and afterwards: the claimant stays registered, bystanders and channels are untouched, "
+                "the ended user's sole channel is gone, invariants hold. "
+                "(enumeration) seeded histories of registrations, joins, rank/mode changes, OPER, invitations, away are "
                 "replayed on a fresh server up to position p (quick: 8 sampled positions x 4 of the 10 endings, thorough: every "
                 "position x all endings), then the ending is applied to the user with most attachments: close at a line "
                 "boundary, RST, half-close, mid-line close, invalid UTF-8, over-long line, RST with unread output queued, QUIT, "
